@@ -15,6 +15,7 @@ import Emu2a.Spec.EncodeRef
 import Emu2a.Model.Build
 import Emu2a.Model.Format
 import Emu2a.Model.Flow
+import Emu2a.Spec.RunSpec
 open Emu2a
 
 def stepFuel : Nat := 100000
@@ -84,6 +85,66 @@ def aluHash (f a : Nat) : UInt64 := Id.run do
       let o := alu f (BitVec.ofNat 8 a) (BitVec.ofNat 8 b) (c == 1)
       h := fnvStep (fnvStep h o.out) (BitVec.ofNat 8 ((if o.c then 1 else 0) + (if o.z then 2 else 0) + (if o.n then 4 else 0)))
   return h
+
+
+/-! C12 helpers -/
+def unhexE (s : String) : Option String := if s = "-" then some "" else Asm.unhex s
+
+def natList (s : String) : Option (List Nat) :=
+  if s = "-" then some [] else (s.splitOn ",").mapM (·.toNat?)
+
+def mkCfg : List Nat → Option Runner.Config
+  | [fc, fd, fe, ff, di1, temp, j1, j2, ai1, ai2, u1, u2, u3] =>
+    some { fc := BitVec.ofNat 8 fc, fd := BitVec.ofNat 8 fd, fe := BitVec.ofNat 8 fe, ff := BitVec.ofNat 8 ff,
+           di1 := BitVec.ofNat 8 di1, temp := temp, j1 := j1 == 1, j2 := j2 == 1, ai1 := ai1, ai2 := ai2,
+           uio1 := u1 == 1, uio2 := u2 == 1, uio3 := u3 == 1 }
+  | _ => none
+
+def cfgOf (s : String) : Option Runner.Config := ((s.splitOn ",").mapM String.toNat?).bind mkCfg
+
+def runStateOf : String → Option RunState
+  | "R" => some .running | "S" => some .stopped | "E" => some .error | _ => none
+
+def vErrStr (e : Runner.Expect) (m : Machine) : Option Runner.VErr → String
+  | none => "ok"
+  | some .state => s!"state {(e.state.getD .running).str} {m.run.str}"
+  | some .fe => s!"fe {(e.fe.getD 0).toNat} {m.core.bus.outFE.toNat}"
+  | some .ff => s!"ff {(e.ff.getD 0).toNat} {m.core.bus.outFF.toNat}"
+
+/-- Result line of a run: the loop transcription (`spec = false`) or the budget-recursive specification. -/
+def runnerLine (spec : Bool) (src : String) (c : Runner.Config) (n : Nat) (ints resets : List Nat) : String :=
+  match Parse.parse (Parse.defaultFuel src) src with
+  | .ok p =>
+    match Asm.compile p with
+    | .ok b =>
+      match Runner.newWithProgram c b with
+      | some m0 =>
+        let (m, k) := if spec then RunSpec.specRun ints resets m0 n else Runner.run n ints resets m0
+        s!"ok k={k} {m.str}"
+      | none => "panic"
+    | .error _ => "panic"
+  | .panic _ => "panic"
+  | _ => "syntax"
+
+def optByteText (s : String) : Option (Option (Option Nat)) :=   -- absent / present(parse result)
+  if s = "-" then some none
+  else if s.startsWith "=" then (unhexE (s.drop 1).toString).map fun t => some (Runner.parseU8 t.toList)
+  else none
+
+def cliLine (src : Option String) (n : Nat) (ints resets : List Nat) (bytes : List (Option Nat))
+    (rest : List Nat) (withVerify : Bool) (xs : Option RunState) (xfe xff : Option (Option Nat)) : String :=
+  -- arguments the command line refuses: any byte text that does not denote a byte
+  let badArg := bytes.any (·.isNone) || (xfe == some none) || (xff == some none)
+  if badArg then "exit=1" else
+  match mkCfg (bytes.map (·.getD 0) ++ rest) with
+  | some c =>
+    let e : Option Runner.Expect := if withVerify then
+        some { state := xs, fe := (xfe.bind id).map (BitVec.ofNat 8), ff := (xff.bind id).map (BitVec.ofNat 8) } else none
+    let o := Runner.cli src c n ints resets e
+    match o.printed with
+    | some (k, mx, st, fe, ff) => s!"exit={o.exit} cycles={k}/{mx} state={st.str} fe={fe.toNat} ff={ff.toNat}"
+    | none => s!"exit={o.exit}"
+  | none => "bad-op"
 
 def applyOp (s : St) (ws : List String) : St × String :=
   let m := s.m
@@ -314,6 +375,29 @@ def applyOp (s : St) (ws : List String) : St × String :=
   | ["spec.masterreset"] =>
     (s, "a=0 ir=2 r=0000000000000000 pr=- pf=0 pi=0 alu=00000 lb=00 run=R w=0 out=0000 micr=00 ucr=00 in=00000000 t=0,0,0,0 do=0000 ao=0,0 icr=00 rpm=0 dir=000 kept=1")
   | ["spec.reload", _, _, _, _] => (s, "agree")
+  | [tag, hx, n, ints, resets, cfg] =>
+    if tag = "spec.runner" ∨ tag = "runner" ∨ tag = "spec.stepped" then
+      match unhexE hx, n.toNat?, natList ints, natList resets, cfgOf cfg with
+      | some src, some n, some ints, some resets, some c =>
+        if tag = "spec.stepped" then (s, "same") else (s, runnerLine (tag = "spec.runner") src c n ints resets)
+      | _, _, _, _, _ => bad
+    else bad
+  | ["spec.verify", st, fe, ff, xs, xfe, xff] =>
+    match runStateOf st, byteOf fe, byteOf ff with
+    | some st, some fe, some ff =>
+      let mm : Machine := { Machine.new with run := st, core := { Machine.new.core with bus := { Machine.new.core.bus with outFE := fe, outFF := ff } } }
+      let e : Runner.Expect := { state := runStateOf xs, fe := byteOf xfe, ff := byteOf xff }
+      (s, vErrStr e mm (RunSpec.verifySpec e mm))
+    | _, _, _ => bad
+  | ["spec.cli", hx, n, ints, resets, b0, b1, b2, b3, b4, rest, wv, xs, xfe, xff] =>
+    let src : Option (Option String) := if hx = "!" then some none else (unhexE hx).map some
+    let bytes := [b0, b1, b2, b3, b4].mapM fun t => (unhexE t).map fun t => Runner.parseU8 t.toList
+    let xsv : Option RunState := match xs with
+      | "running" => some .running | "stopped" => some .stopped | "error" => some .error | _ => none
+    match src, n.toNat?, natList ints, natList resets, bytes, (rest.splitOn ",").mapM (·.toNat?), optByteText xfe, optByteText xff with
+    | some src, some n, some ints, some resets, some bytes, some rest, some xfe, some xff =>
+      (s, cliLine src n ints resets bytes rest (wv = "1") xsv xfe xff)
+    | _, _, _, _, _, _, _, _ => bad
   | ["d"] => (s, m.str)
   | ["ram"] => (s, ramStr m.core.bus.ram)
   | ["done"] => (s, b01 m.core.done)
